@@ -503,6 +503,10 @@ func checkC10(c *core.Ctx) {
 			c10Globs(c, dir)
 			return
 		}
+		if cs.Mode == "glob-wire" {
+			c10GlobWire(c, dir)
+			return
+		}
 		c10Check(c, dir, home, cs.Graph, cs.Mode)
 		return
 	}
@@ -607,6 +611,48 @@ func checkC10(c *core.Ctx) {
 	// F. globs
 	if c.MineKey(7) {
 		c10Globs(c, filepath.Join(c.Scratch, "c10glob"))
+	}
+	if c.MineKey(8) {
+		c10GlobWire(c, filepath.Join(c.Scratch, "c10globwire"))
+	}
+}
+
+// c10GlobWire: an include error inside a file that was matched by a glob is
+// shown on the glob directive of the opened document.
+func c10GlobWire(c *core.Ctx, dir string) {
+	_ = os.RemoveAll(dir)
+	_ = os.MkdirAll(dir, 0o755)
+	pad := strings.Repeat("; pad\n", 8)
+	cases := []struct{ name, inner string }{
+		{"missing file", pad + "include nowhere.journal\n"},
+		{"cycle to the root", pad + "include r.journal\n"},
+		{"failing glob", pad + "include none*.journal\n"},
+	}
+	for _, cs := range cases {
+		files := map[string]string{
+			"r.journal":  "; first line\ninclude f?.journal\n\n2001-01-01 root\n    a:r  1 USD\n    a:cash  -1 USD\n",
+			"f1.journal": cs.inner + "\n2001-01-02 one\n    a:one  1 USD\n    a:cash  -1 USD\n",
+			"f2.journal": "2001-01-03 two\n    a:two  1 USD\n    a:cash  -1 USD\n",
+		}
+		writeFiles(dir, files)
+		s := wire.New()
+		s.Initialize(wire.InitOpts{})
+		uri := wire.URI(filepath.Join(dir, "r.journal"))
+		s.DidOpen(uri, files["r.journal"])
+		last := s.Client.Last(uri)
+		c.Res.Evaluations++
+		c.Res.Nontrivial++
+		var lines []int
+		for _, d := range parseDiags(last) {
+			if d.Code == "" && d.Source == "hledger-lsp" {
+				lines = append(lines, d.StartLine)
+			}
+		}
+		if fmt.Sprint(lines) != "[1]" {
+			c.Violate("glob|nested verdict not on the glob directive|"+cs.name, "diagnostics published on include lines",
+				fmt.Sprintf("r.journal includes f?.journal on line 1; f1.journal has a failing include (%s) on its line 8: load diagnostics on lines %v, want [1]\n%s", cs.name, lines, last),
+				map[string]any{"mode": "glob-wire", "case": cs.name})
+		}
 	}
 }
 
